@@ -73,3 +73,372 @@ def task_outcome_once(chk, ctx):
         if rets:
             ok = any(isinstance(x, ast.Expr) and isinstance(x.value, ast.Call) and callname(x.value) == "send_error_callback" for x in r.body)
             chk.ob("C15.R10", "execute_task: early return under `%s` fails the Task first" % short(r.test, 50), ok, "", key="%s | early return under `%s` without an outcome" % (ext.qname, norm(r.test)), where=td.line(r), message="")
+
+
+# =====================================================================================================================
+# Rules added after the fourth blind round had been measured (DESIGN 8.6)
+# =====================================================================================================================
+from ..cfg import CFG
+
+
+class _F:
+    def __init__(self, node):
+        self.node = node
+
+
+def _positive(rule, matcher, src, what):
+    if not matcher(ast.parse(src)):
+        raise AnalysisError("%s: the matcher no longer recognises its own positive example (%s)" % (rule, what))
+
+
+# C03.R10: an entry of orphaned_responses is removed only together with its retention timer (or by that timer's own handler)
+def orphan_entry_timer_paired(chk, ctx):
+    td = ctx.mod("task_dispatcher")
+    n = 0
+    for q, f in sorted(td.funcs.items()):
+        rem = [s for s in body_nodes(f) if isinstance(s, ast.Delete) and any(isinstance(t, ast.Subscript) and norm(t.value) == "self.orphaned_responses" for t in s.targets)]
+        rem += [enclosing_stmt(td, c) for c in body_nodes(f) if isinstance(c, ast.Call) and norm(c.func) == "self.orphaned_responses.pop"]
+        for r in rem:
+            n += 1
+            if f.name == "log_and_acknowledge_orphaned_responses":
+                chk.ob("C03.R10", "%s: expiry handler removes its own entry" % f.name, True, "")
+                continue
+            clears = [c for c in body_nodes(f) if isinstance(c, ast.Call) and last(callname(c)) == "clear_timeout" and norm(c.args[0]) == "timeout_id"]
+            # the cleared id must be the one unpacked from the entry being removed, in the same block
+            blk = getattr(td.parent(r), "body", []) + getattr(td.parent(r), "orelse", [])
+            same = [c for c in clears if any(enclosing_stmt(td, c) is s for s in blk)]
+            unp = [s for s in blk if isinstance(s, ast.Assign) and isinstance(s.targets[0], ast.Tuple) and "timeout_id" in [norm(e) for e in s.targets[0].elts] and "orphaned_response" in norm(s.value)]
+            ok = bool(same) and bool(unp)
+            chk.ob("C03.R10", "%s: removing a retained reply also clears its retention timer" % f.name, ok, "",
+                   key="%s | a retained reply is removed from orphaned_responses without clearing its retention timer" % q, where=td.line(r),
+                   message="the retention timer's handler acknowledges whatever is stored under that correlation id when it fires: if the entry is removed but the timer stays armed, it later "
+                           "removes and acknowledges a different (duplicate) reply's entry, or acknowledges the first reply a second time")
+    chk.floor("C03.R10", n, 2, "removals from orphaned_responses")
+
+
+# C04.R7: a stored instant is only compared with readings of the clock it was taken from
+def clock_domains(chk, ctx):
+    def clock(e):
+        for x in ast.walk(e):
+            if isinstance(x, ast.Call) and norm(x.func) in ("time.time", "time.monotonic", "time.perf_counter"):
+                return norm(x.func)
+        return None
+    n = 0
+    for mn in ("task_dispatcher", "state_engine", "event_dispatcher"):
+        m = ctx.mod(mn)
+        stored = {}
+        for q, f in m.funcs.items():
+            for s in body_nodes(f):
+                if isinstance(s, ast.Assign) and len(s.targets) == 1 and isinstance(s.targets[0], ast.Attribute) and norm(s.targets[0].value) == "self" and clock(s.value):
+                    stored.setdefault(s.targets[0].attr, set()).add(clock(s.value))
+        for q, f in sorted(m.funcs.items()):
+            for b in body_nodes(f):
+                if isinstance(b, ast.BinOp) and isinstance(b.op, ast.Sub):
+                    for side, other in ((b.left, b.right), (b.right, b.left)):
+                        if isinstance(other, ast.Attribute) and norm(other.value) == "self" and other.attr in stored and clock(side):
+                            n += 1
+                            ok = stored[other.attr] == {clock(side)}
+                            chk.ob("C04.R7", "%s: `%s` subtracts readings of one clock" % (q, short(b, 50)), ok, "self.%s is taken from %s" % (other.attr, sorted(stored[other.attr])),
+                                   key="%s | `%s` mixes %s with self.%s taken from %s" % (q, norm(b), clock(side), other.attr, sorted(stored[other.attr])), where=m.line(b),
+                                   message="the uptime that decides whether an unmatched reply is retained for a restarting Task is the difference of two readings: taken from different "
+                                           "clocks it is meaningless (about 1.7e12 ms), the engine never believes it has just restarted and drops the reply")
+    chk.floor("C04.R7", n, 1, "differences between a clock reading and a stored instant")
+    # the request tuple's scheduling time and the duration computed from it
+    td = ctx.mod("task_dispatcher")
+    sched, durs = set(), set()
+    for q, f in td.funcs.items():
+        for s in body_nodes(f):
+            if isinstance(s, ast.Assign) and any(isinstance(t, ast.Subscript) and norm(t.value) == "self.pending_requests" for t in s.targets) and isinstance(s.value, ast.Tuple) and len(s.value.elts) == 8:
+                sched.add(clock(s.value.elts[5]))
+            if isinstance(s, ast.Assign) and norm(s.targets[0]) == "duration" and "sched_time" in norm(s.value):
+                durs.add(clock(s.value))
+    chk.ob("C04.R7", "request scheduling time and reply duration use one clock (%s)" % sorted(x for x in sched | durs if x), len(sched | durs) == 1, "",
+           key="TaskDispatcher | sched_time stored from %s but durations computed with %s" % (sorted(str(x) for x in sched), sorted(str(x) for x in durs)), where="task_dispatcher", message="")
+
+
+# C05.R10: the input handed to each iteration/branch is computed in that iteration
+def fresh_iteration_input(chk, ctx):
+    se = ctx.mod("state_engine")
+    p = ctx.protocol()
+    n = 0
+    for name in ("asl_state_Map_delegate", "asl_state_Parallel_delegate"):
+        f = p.notify.children.get(name)
+        if f is None:
+            raise AnalysisError("anchor not found: " + name)
+        g = CFG(f.node)
+        loops = [l for l in body_nodes(f) if isinstance(l, ast.For) and any(isinstance(c, ast.Call) and last(callname(c)) == "publish" for c in ast.walk(l))]
+        for l in loops:
+            inside = {id(x) for x in ast.walk(l)}
+            uses = [s for s in ast.walk(l) if isinstance(s, ast.Assign) and norm(s.targets[0]) == "event['data']" and isinstance(s.value, ast.Name)]
+            for u in uses:
+                n += 1
+                v = u.value.id
+                defs = [d for d in name_defs(f, v) if id(d) in inside and isinstance(d, ast.Assign)]
+                if not defs:
+                    chk.ob("C05.R10", "%s: `%s` is loop-invariant (bound before the fan-out loop)" % (name, v), True, "")
+                    continue
+                ln = g.node_of(l)
+                avoid = g.paths_avoiding(ln, g.node_of(u), {g.node_of(d) for d in defs})
+                chk.ob("C05.R10", "%s: `%s` is (re)computed on every path of an iteration before it becomes the iteration's input" % (name, v), not avoid, "",
+                       key="%s | an iteration can be launched with the `%s` computed for an earlier iteration" % (f.qname, v), where=se.line(u),
+                       message="a path through the loop body that skips every assignment of the value hands the previous iteration's input to this one: items are processed with the wrong input "
+                               "(item 0 processed N times, the others never)")
+    chk.floor("C05.R10", n, 2, "iteration inputs in the fan-out loops")
+
+
+# C06.R5: a cancelled Wait reports the canceller's error, whatever the timers say
+def cancelled_wait_reports_canceller(chk, ctx):
+    se = ctx.mod("state_engine")
+    p = ctx.protocol()
+    w = p.handlers.get("Wait")
+    ot = w.children.get("on_timeout") if w else None
+    if ot is None:
+        raise AnalysisError("anchor not found: asl_state_Wait.on_timeout")
+    params = [a.arg for a in ot.node.args.args]
+    chk.ob("C06.R5", "Wait.on_timeout takes the cancellation error as its parameter", params == ["error"], str(params), key="%s | parameters %s" % (ot.qname, params), where=ot.where(), message="")
+    reb = [s for s in body_nodes(ot) if isinstance(s, (ast.Assign, ast.AugAssign)) and any(isinstance(x, ast.Name) and x.id == "error" and isinstance(x.ctx, ast.Store) for x in ast.walk(s))]
+    chk.ob("C06.R5", "the cancellation error is never overwritten", not reb, "", key="%s | the `error` handed in by cancel_task is overwritten (`%s`)" % (ot.qname, short(reb[0], 60) if reb else ""), where=se.line(reb[0]) if reb else ot.where(),
+           message="cancel_task fires the Wait's callback with Task.Terminated; if the callback reports something else (an execution timeout, because the Wait is longer than the remaining "
+                   "TimeoutSeconds) the terminated join does not absorb it and the execution is ended a second time")
+    lits = [x for x in body_nodes(ot) if isinstance(x, ast.Constant) and x.value == "States.ExecutionTimeout"]
+    ok = bool(lits) and all(any(arm == "orelse" and norm(i.test) == "error" for i, arm in enclosing_ifs(se, x, ot.node)) for x in lits)
+    chk.ob("C06.R5", "the execution-timeout arm is only taken when no cancellation error was handed in", ok, "", key="%s | States.ExecutionTimeout is not in the else-arm of `if error`" % ot.qname, where=ot.where(), message="")
+
+
+# C13.R9: intrinsic functions never modify their arguments
+MUTATORS = {"update", "append", "extend", "insert", "remove", "pop", "clear", "sort", "reverse", "setdefault", "popitem"}
+
+
+def _arg_mutations(f):
+    alias = {"args"}
+    for s in body_nodes(f):
+        if isinstance(s, ast.Assign) and len(s.targets) == 1 and isinstance(s.targets[0], ast.Name):
+            v = s.value
+            if (isinstance(v, ast.Subscript) and isinstance(v.value, ast.Name) and v.value.id in alias and not isinstance(v.slice, ast.Slice)) or (isinstance(v, ast.Name) and v.id in alias):
+                alias.add(s.targets[0].id)
+    out = []
+    for s in body_nodes(f):
+        if isinstance(s, ast.Call) and isinstance(s.func, ast.Attribute) and s.func.attr in MUTATORS:
+            b = s.func.value
+            root = b
+            while isinstance(root, ast.Subscript):
+                root = root.value
+            if isinstance(root, ast.Name) and root.id in alias and not (isinstance(b, ast.Name) and b.id == "args" and False):
+                # args itself is the freshly built argument list: only its elements (and aliases of them) are shared with the caller's data
+                if isinstance(b, ast.Name) and b.id == "args":
+                    continue
+                out.append(s)
+        if isinstance(s, (ast.Assign, ast.AugAssign, ast.Delete)):
+            tgs = s.targets if isinstance(s, (ast.Assign, ast.Delete)) else [s.target]
+            for t in tgs:
+                if isinstance(t, ast.Subscript):
+                    root = t.value
+                    depth = 0
+                    while isinstance(root, ast.Subscript):
+                        root, depth = root.value, depth + 1
+                    if isinstance(root, ast.Name) and root.id in alias and (root.id != "args" or depth >= 1):
+                        out.append(s)
+                if isinstance(s, ast.AugAssign) and isinstance(t, ast.Name) and t.id in alias and t.id != "args" and isinstance(s.op, ast.Add):
+                    out.append(s)
+    return out
+
+
+def intrinsics_pure(chk, ctx):
+    sp = ctx.mod("state_engine_paths")
+    _positive("C13.R9", lambda t: _arg_mutations(_F(t.body[0])), "def asl_intrinsic_X(args):\n    merged = args[0]\n    merged.update(args[1])\n    return merged\n", "update through an alias of an argument")
+    n = 0
+    for q, f in sorted(sp.funcs.items()):
+        if not f.name.startswith("asl_intrinsic_"):
+            continue
+        n += 1
+        muts = _arg_mutations(f)
+        chk.ob("C13.R9", "%s does not modify its arguments" % f.name, not muts, "", key="%s | modifies an argument in place (`%s`)" % (q, short(muts[0], 60) if muts else ""), where=sp.line(muts[0]) if muts else f.where(),
+               message="arguments selected by a Path are the live nodes of the input or of the Context Object: an intrinsic that updates one in place changes the state's input / $$ for "
+                       "everything evaluated afterwards (the template, input and context must be left unmodified)")
+    chk.floor("C13.R9", n, 15, "intrinsic functions")
+
+
+# C13.R10: path members and intrinsic arguments are resolved against the same Context Object; randomness sources stay separate
+def template_context_single(chk, ctx):
+    sp = ctx.mod("state_engine_paths")
+    ept = sp.func("evaluate_payload_template")
+    calls = [c for c in ast.walk(ept.node) if isinstance(c, ast.Call) and callname(c) == "apply_path" and len(c.args) >= 2]
+    ctxs = sorted({norm(c.args[1]) for c in calls})
+    chk.floor("C13.R10", len(calls), 2, "apply_path calls in evaluate_payload_template")
+    chk.ob("C13.R10", "every path in a template (member or intrinsic argument) is resolved against the `context` parameter", ctxs == ["context"], str(ctxs),
+           key="evaluate_payload_template | paths are resolved against different context objects %s" % ctxs, where=ept.where(),
+           message="a `$$.` path must mean the same thing as a template member and as an argument of an intrinsic function")
+    ins = sorted({norm(c.args[0]) for c in calls})
+    chk.ob("C13.R10", "every path in a template is applied to the `input` parameter", ins == ["input"], str(ins), key="evaluate_payload_template | paths are applied to %s" % ins, where=ept.where(), message="")
+    users = sorted({f.name for q, f in sp.funcs.items() for x in body_nodes(f) if isinstance(x, ast.Attribute) and isinstance(x.value, ast.Name) and x.value.id == "random"})
+    chk.ob("C13.R10", "only States.MathRandom uses the (seedable) random module", users == ["asl_intrinsic_MathRandom"], str(users),
+           key="state_engine_paths | the seedable random module is used by %s" % users, where=sp.rel,
+           message="States.MathRandom seeds the global generator when given a seed: anything else drawn from it (for example UUIDs) becomes a deterministic function of that seed")
+    u = sp.funcs.get("evaluate_payload_template.evaluate_intrinsic_function.asl_intrinsic_UUID")
+    rets = [norm(r.value) for r in body_nodes(u) if isinstance(r, ast.Return)] if u else []
+    chk.ob("C13.R10", "States.UUID returns str(uuid.uuid4())", rets == ["str(uuid.uuid4())"], str(rets), key="asl_intrinsic_UUID | value %s" % rets, where=u.where() if u else sp.rel, message="")
+
+
+# C15.R11: cancellers are removed by the handler of their own event only
+def canceller_removal_callers(chk, ctx):
+    n = 0
+    allowed = {"StateEngine.notify.asl_state_Task_delegate.on_response": "id", "StateEngine.notify.asl_state_Wait.on_timeout": "id", "TaskDispatcher.cancel_task": "event_id"}
+    for mn in ("state_engine", "task_dispatcher", "rest_api", "rest_api_asyncio", "event_dispatcher"):
+        m = ctx.mod(mn)
+        for q, f in sorted(m.funcs.items()):
+            for c in body_nodes(f):
+                direct = isinstance(c, ast.Call) and last(callname(c)) == "remove_canceller"
+                raw = isinstance(c, (ast.Delete,)) and any(isinstance(t, ast.Subscript) and norm(t.value) == "self.cancellers" for t in c.targets)
+                rawpop = isinstance(c, ast.Call) and norm(c.func) in ("self.cancellers.pop", "self.cancellers.clear")
+                if not (direct or raw or rawpop):
+                    continue
+                n += 1
+                if q == "TaskDispatcher.remove_canceller":
+                    continue
+                ok = q in allowed and (not direct or (c.args and norm(c.args[0]) == allowed[q]))
+                chk.ob("C15.R11", "%s removes only the canceller of its own event" % q, ok, "",
+                       key="%s | removes cancellers of other events (`%s`)" % (q, short(c, 60)), where=m.line(c),
+                       message="a canceller is the only handle through which a failing parent can reach the Tasks and Waits its synchronous child is blocked on: removed wholesale (e.g. for "
+                               "every state of an execution that ends) before cancel_task has used it, the child keeps running after its parent has failed")
+    chk.floor("C15.R11", n, 3, "removals of cancellers")
+    # the failing Task cancels what it is blocked on before its error is handled
+    se = ctx.mod("state_engine")
+    orr = se.funcs.get("StateEngine.notify.asl_state_Task_delegate.on_response")
+    g = CFG(orr.node)
+    cts = [c for c in body_nodes(orr) if isinstance(c, ast.Call) and last(callname(c)) == "cancel_task"]
+    ok = len(cts) == 1
+    if ok:
+        cn = g.containing_stmt_node(cts[0], se)
+        st0 = enclosing_stmt(se, cts[0])
+        blk = se.parent(st0)
+        arm = [lst for lst in (getattr(blk, "body", []), getattr(blk, "orelse", [])) if any(st0 is x for x in lst)][0]
+        hes = [c for s in arm for c in ast.walk(s) if isinstance(c, ast.Call) and callname(c) == "handle_error"]
+        ok = bool(hes) and all(g.dominates(cn, g.containing_stmt_node(h, se)) for h in hes)
+    chk.ob("C15.R11", "a failed Task cancels what it is blocked on before its error is handled", ok, "", key="%s | cancel_task does not precede handle_error in the error arm" % orr.qname, where=orr.where(),
+           message="handle_error may end the execution; what the Task was blocked on (a synchronous child) must be cancelled through the Task's canceller while that still exists")
+
+
+# C16.R6: the text whose length was tested is the text that is forwarded
+def measured_is_forwarded(chk, ctx):
+    m = ctx.mod("rest_api_asyncio")
+    f = [f for q, f in m.funcs.items() if f.name == "aws_api_SendTaskSuccess"][0]
+    defs = [d for d in name_defs(f, "output") if isinstance(d, ast.Assign)]
+    ok = len(defs) == 1 and isinstance(strip_await(defs[0].value), ast.Call) and norm(strip_await(defs[0].value).func) == "params.get"
+    chk.ob("C16.R6", "SendTaskSuccess: `output` is bound once, from the request", ok, str([norm(d.value) for d in defs]),
+           key="aws_api_SendTaskSuccess | `output` is rebound after it was measured (%s)" % [norm(d.value) for d in defs[1:]], where=m.line(defs[-1]) if defs else f.where(),
+           message="the API accepts an output by the length of the text it received; forwarding a re-serialisation hands the dispatcher a text of a different length, which it measures again")
+    msgs = [c for c in body_nodes(f) if isinstance(c, ast.Call) and callname(c) == "Message"]
+    ok = len(msgs) == 1 and norm(msgs[0].args[0]) == "output"
+    chk.ob("C16.R6", "SendTaskSuccess publishes `output` itself", ok, "", key="aws_api_SendTaskSuccess | published body", where=f.where(), message="")
+
+
+# C10.R7: both front ends read the shared request parameters in the same way
+def frontends_read_alike(chk, ctx):
+    from .c10 import handlers
+    a, b = ctx.mod("rest_api"), ctx.mod("rest_api_asyncio")
+    ha, hb = handlers(a), handlers(b)
+
+    def reads(f):
+        out = {}
+        for s in body_nodes(f):
+            if isinstance(s, ast.Assign) and len(s.targets) == 1 and isinstance(s.targets[0], ast.Name):
+                v = strip_await(s.value)
+                head = strip_await(v.values[0]) if isinstance(v, ast.BoolOp) else v
+                if isinstance(head, ast.Call) and norm(head.func) == "params.get" and head.args:
+                    out.setdefault(const(head.args[0]), []).append(norm(v))
+        return out
+    n = 0
+    for name in sorted(set(ha) & set(hb)):
+        ra, rb = reads(ha[name]), reads(hb[name])
+        for k in sorted(set(ra) & set(rb)):
+            n += 1
+            chk.ob("C10.R7", "%s: both front ends read `%s` alike (%s)" % (name, k, ra[k][0]), ra[k] == rb[k], "flask %s / quart %s" % (ra[k], rb[k]),
+                   key="aws_api_%s | the front ends read request parameter `%s` differently: %s vs %s" % (name, k, ra[k], rb[k]), where=ha[name].where(),
+                   message="defaults decide what an absent, null or empty parameter means: the asyncio and blocking front ends must answer alike")
+    chk.floor("C10.R7", n, 15, "request parameters read by both front ends")
+
+
+# C17.R6: parse_arn hands every caller its own dictionary
+def parse_arn_fresh(chk, ctx):
+    m = ctx.mod("arn")
+    f = m.func("parse_arn")
+    chk.ob("C17.R6", "parse_arn is not memoised", not f.node.decorator_list, str([norm(d) for d in f.node.decorator_list]),
+           key="parse_arn | decorated with %s" % [norm(d) for d in f.node.decorator_list], where=f.where(),
+           message="callers edit the dictionary they get back (resource_type = 'stateMachine', resource = ...) and build another ARN from it: a shared, cached dictionary makes the next parse of "
+                   "the same ARN return the edited parts")
+    rets = [r for r in body_nodes(f) if isinstance(r, ast.Return)]
+    ok = len(rets) == 1 and isinstance(rets[0].value, ast.Name) and any(isinstance(d, ast.Assign) and isinstance(d.value, ast.Dict) for d in name_defs(f, rets[0].value.id))
+    chk.ob("C17.R6", "parse_arn builds and returns a new dict", ok, "", key="parse_arn | returned object", where=f.where(), message="")
+    # callers that edit the result exist (that is why freshness matters): count them so the rule's premise stays visible
+    edits = 0
+    for mn in ("state_engine", "task_dispatcher", "rest_api", "rest_api_asyncio"):
+        mm = ctx.mod(mn)
+        for q, g in mm.funcs.items():
+            names = {s.targets[0].id for s in body_nodes(g) if isinstance(s, ast.Assign) and len(s.targets) == 1 and isinstance(s.targets[0], ast.Name) and isinstance(s.value, ast.Call) and callname(s.value) == "parse_arn"}
+            edits += sum(1 for s in body_nodes(g) if isinstance(s, ast.Assign) and any(isinstance(t, ast.Subscript) and isinstance(t.value, ast.Name) and t.value.id in names for t in s.targets))
+    chk.sample({"rule": "C17.R6", "callers_that_edit_the_parse_result": edits})
+
+
+# C18.R11: the validator applies regular expressions to strings only
+def regex_on_strings_only(chk, ctx):
+    from .c18 import _has_isinstance
+    n = 0
+    for mn in ("statelint", "j2119"):
+        m = ctx.mod(mn)
+        for q, f in sorted(m.funcs.items()):
+            # only code that sees document values: the JSONPath checker, the constraint classes and the semantic checker
+            # (the grammar parser - Matcher, Oxford, deduce - matches the lines of the bundled schema text)
+            if not (f.cls and (f.cls in ("JSONPathChecker", "StateNode") or f.cls.endswith("Constraint"))):
+                continue
+            params = {a.arg for a in f.node.args.args} - {"self"}
+            for c in body_nodes(f):
+                if not (isinstance(c, ast.Call) and isinstance(c.func, ast.Attribute) and c.func.attr in ("match", "search", "fullmatch", "findall") and c.args):
+                    continue
+                arg = c.args[-1] if norm(c.func.value) == "re" else c.args[0]
+                if not (isinstance(arg, ast.Name) and arg.id in params):
+                    continue
+                n += 1
+                ok = False
+                x = c
+                while x is not None and x is not f.node and not ok:
+                    par = m.parent(x)
+                    if isinstance(par, ast.BoolOp) and isinstance(par.op, ast.And):
+                        idx = [i for i, v in enumerate(par.values) if any(y is c for y in ast.walk(v))]
+                        if idx and any(_has_isinstance(v, arg.id, "str") for v in par.values[:idx[0]]):
+                            ok = True
+                    if isinstance(par, ast.If) and any(x is s for s in par.body) and _has_isinstance(par.test, arg.id, "str"):
+                        ok = True
+                    x = par
+                if not ok:
+                    # early return for non-strings at the top of the function
+                    for s in f.node.body:
+                        if s.lineno >= c.lineno:
+                            break
+                        if isinstance(s, ast.If) and any(isinstance(r, ast.Return) for r in s.body) and "not isinstance(%s, str)" % arg.id in norm(s.test):
+                            ok = True
+                chk.ob("C18.R11", "%s: `%s` is applied to a string" % (q, short(c, 50)), ok, "",
+                       key="%s | regular expression applied to `%s` without testing that it is a string" % (q, arg.id), where=m.line(c),
+                       message="a number, boolean, array or object in that position raises TypeError out of validate(): the validator must report problems rather than raise, for any JSON value")
+    chk.floor("C18.R11", n, 2, "regular-expression matches on parameters in the validator")
+
+
+# C07.R7: the event that re-enters a Map for its next MaxConcurrency batch carries the Map's own retry counters
+def batch_reentry_keeps_retry(chk, ctx):
+    se = ctx.mod("state_engine")
+    p = ctx.protocol()
+    j = p.join
+    pubs = [c for c in body_nodes(j) if isinstance(c, ast.Call) and last(callname(c)) == "publish" and any("max_concurrency" in norm(i.test) for i, a in enclosing_ifs(se, c, j.node))]
+    chk.floor("C07.R7", len(pubs), 1, "batch re-entry publish in the join")
+    for pub in pubs:
+        st = enclosing_stmt(se, pub)
+        blk = se.parent(st)
+        arm = [lst for lst in (getattr(blk, "body", []), getattr(blk, "orelse", [])) if any(st is x for x in lst)][0]
+        txt = [norm(s) for s in arm if s.lineno < st.lineno]
+        for nm, var in (("RetryCount", "retry_count"), ("RetryTimeout", "retry_timeout")):
+            ok = any(t.startswith("if %s:" % var) and "context_state['%s'] = %s" % (nm, var) in t for t in txt)
+            chk.ob("C07.R7", "batch re-entry restores %s when the Map is being retried" % nm, ok, "", key="%s | the batch re-entry event does not carry the Map's %s" % (j.qname, nm), where=se.line(st),
+                   message="a Map that is on its k-th retry must still be on its k-th retry when it re-enters for the next batch: without the counter every failure in a later batch is "
+                           "seen with RetryCount 0, MaxAttempts is never reached and the catcher never runs")
+        defs = {var: [norm(d.value) for d in name_defs(j, var) if isinstance(d, ast.Assign)] for var in ("retry_count", "retry_timeout")}
+        ok = all(any("RetryCount" in v or "RetryTimeout" in v for v in vs) for vs in defs.values())
+        chk.ob("C07.R7", "the counters restored are the ones saved in the branch record", ok, str(defs), key="%s | source of the restored retry counters %s" % (j.qname, defs), where=j.where(), message="")
